@@ -81,7 +81,34 @@ class Run(object):
         self.exc = False
         self.errors = []
 
+    def lookup(self, e):
+        """relays are named to TorState in the forms Tor uses: a direct identity lookup, or a circuit's path"""
+        st, doc = self.state, e["d"]
+
+        def longname(r, sep):
+            nick = NICKS[doc[r]["nick"]] if doc[r]["here"] else "gone"
+            h = hexid(self.digests[r])
+            return h if sep == "" else "%s%s%s" % (h, sep, nick)
+        if e["form"] == "circ":
+            path = ",".join(longname(r, "=" if i % 2 == 0 else "~") for i, r in enumerate(e["rs"]))
+            self.sim.event("650 CIRC 99 EXTENDED %s BUILD_FLAGS=NEED_CAPACITY PURPOSE=GENERAL\r\n" % path)
+            self.sim.event("650 CIRC 99 CLOSED %s PURPOSE=GENERAL REASON=FINISHED\r\n" % path)
+        else:
+            sep = {"hex": "", "tilde": "~", "eq": "="}[e["form"]]
+            for r in e["rs"]:
+                got = st.router_from_id(longname(r, sep))
+                if doc[r]["here"] and got not in list(st.all_routers):
+                    self.errors.append("lookup of %s as %r did not return the relay's object" % (r, longname(r, sep)))
+                    self.exc = True
+
     def step(self, e):
+        if e["a"] == "Lookup":
+            try:
+                self.lookup(e)
+            except Exception:
+                self.exc = True
+                self.errors.append(failure.Failure().getTraceback())
+            return self.obs(e["d"])
         lines = render(e["d"], self.digests, RELAYS)
         try:
             if self.state is None:
